@@ -225,7 +225,22 @@ class FiltersSet:
         ifcontrol = commands.get_command_instance("if")
         mtypeobj = commands.get_command_instance(matchtype, ifcontrol)
         for c in conditions:
-            if not isinstance(c[0], list) and c[0].startswith("not"):
+            condition = (
+                not isinstance(c[0], list)
+                and c[0].startswith("not")
+                and c[0][3:]
+                in (
+                    "true",
+                    "false",
+                    "size",
+                    "exists",
+                    "envelope",
+                    "address",
+                    "body",
+                    "currentdate",
+                )
+            )
+            if condition:
                 negate = True
                 cname = c[0].replace("not", "", 1)
             else:
